@@ -1151,6 +1151,99 @@ func vkGenFaults(r *vfRng, thorough bool) vfCase {
 // settling time granted after faults stop
 func vkSettle(cfg []int64) int64 { return 600 * cfg[2] * 5 }
 
+// ---- kind 3: contention in real time (a goroutine waiting for a mutex is not durably blocked, so no bubble).
+// One real node with a few members; for a third of a second, at the same time: membership claims are applied
+// (node lock, then the broadcast queue), pings arrive and are answered with piggy-backed broadcasts (the queue,
+// then whatever its callbacks need), suspicions are raised and refuted, the application reads the member list.
+// A healthy member must keep answering: every worker has to come back.  Row kind 19 = some worker never did.
+type vkNull struct {
+	pk chan *Packet
+	st chan net.Conn
+}
+
+func (t *vkNull) FinalAdvertiseAddr(string, int) (net.IP, int, error) { return net.IP{10, 0, 0, 1}, 7946, nil }
+func (t *vkNull) WriteTo(b []byte, a string) (time.Time, error)       { return time.Now(), nil }
+func (t *vkNull) WriteToAddress(b []byte, a Address) (time.Time, error) {
+	return time.Now(), nil
+}
+func (t *vkNull) PacketCh() <-chan *Packet { return t.pk }
+func (t *vkNull) StreamCh() <-chan net.Conn { return t.st }
+func (t *vkNull) Shutdown() error          { return nil }
+func (t *vkNull) DialTimeout(string, time.Duration) (net.Conn, error) {
+	return nil, fmt.Errorf("refused")
+}
+func (t *vkNull) DialAddressTimeout(Address, time.Duration) (net.Conn, error) {
+	return nil, fmt.Errorf("refused")
+}
+
+func vkContend(t *testing.T, c *vfCase, st *vfStats) {
+	cfg := DefaultLANConfig()
+	cfg.Name = "n0"
+	cfg.Transport = &vkNull{pk: make(chan *Packet), st: make(chan net.Conn)}
+	cfg.Logger = vkDiscardLog
+	cfg.Delegate = &vkDel{meta: 1000}
+	m, err := newMemberlist(cfg)
+	if err != nil {
+		t.Fatal(err)
+	}
+	if err := m.setAlive(); err != nil {
+		t.Fatal(err)
+	}
+	peer := func(i int) string { return fmt.Sprintf("n%d", i) }
+	for i := 1; i <= 3; i++ {
+		m.aliveNode(&alive{Incarnation: 1, Node: peer(i), Addr: []byte{10, 0, 0, byte(i + 1)}, Port: 7946, Vsn: []uint8{1, 5, 2, 0, 0, 0}}, nil, false)
+	}
+	stop := make(chan struct{})
+	var wg sync.WaitGroup
+	work := func(f func(k int)) {
+		wg.Add(1)
+		go func() {
+			defer wg.Done()
+			for k := 0; ; k++ {
+				select {
+				case <-stop:
+					return
+				default:
+				}
+				f(k)
+			}
+		}()
+	}
+	// membership claims: metadata updates of the peers at rising incarnations
+	work(func(k int) {
+		m.aliveNode(&alive{Incarnation: uint32(2 + k), Node: peer(1 + k%3), Addr: []byte{10, 0, 0, byte(2 + k%3)}, Port: 7946, Meta: []byte{byte(k)}, Vsn: []uint8{1, 5, 2, 0, 0, 0}}, nil, false)
+	})
+	// pings from a member, answered inline with whatever broadcasts fit
+	from := &net.UDPAddr{IP: net.IP{10, 0, 0, 2}, Port: 7946}
+	work(func(k int) {
+		buf, _ := encode(pingMsg, &ping{SeqNo: uint32(k + 1), Node: "n0"}, false)
+		m.handleCommand(buf.Bytes(), from, time.Now())
+	})
+	// what gossip() does with the queue
+	work(func(k int) { m.getBroadcasts(compoundOverhead, 1400) })
+	// accusations against ourselves (refuted) and against a peer (taken back by the next alive claim)
+	work(func(k int) {
+		m.suspectNode(&suspect{Incarnation: m.incarnation.Load(), Node: "n0", From: peer(1)})
+		m.suspectNode(&suspect{Incarnation: uint32(2 + k), Node: peer(1 + k%3), From: peer(2)})
+	})
+	// the application reads the member list
+	work(func(k int) { m.Members(); m.NumMembers(); m.GetHealthScore() })
+	time.Sleep(300 * time.Millisecond)
+	close(stop)
+	done := make(chan struct{})
+	go func() { wg.Wait(); close(done) }()
+	c.Obs = [][]int64{{0, 0}}
+	select {
+	case <-done:
+		m.Shutdown()
+	case <-time.After(10 * time.Second):
+		c.Obs = append(c.Obs, []int64{10300, 19, 0})
+		st.ObsHist["contention_deadlock"]++
+	}
+	st.Ops++
+	st.OpHist["contention"]++
+}
+
 func TestVfCluster(t *testing.T) {
 	st := vfNewStats("cluster")
 	cases, replay, err := vfLoadCases()
@@ -1175,18 +1268,37 @@ func TestVfCluster(t *testing.T) {
 				cases = append(cases, vkGenFaults(r, thorough))
 			}
 		}
+		if prop != "C05" && prop != "C03" {
+			for k := 0; k < 3; k++ {
+				cases = append(cases, vfCase{Cfg: []int64{3, 4, 200, 3, 1, 0, 8, 6, int64(k)}, Ops: [][]int64{{0, 0, 0, 0}}})
+			}
+		}
+	}
+	// the real-time contention cases first: when they find the node wedged, the simulated clusters would only hang
+	stats := make([]*vfStats, len(cases))
+	wedged := false
+	for i := range cases {
+		stats[i] = vfNewStats("cluster")
+		if cases[i].Cfg[0] == 3 {
+			vkContend(t, &cases[i], stats[i])
+			wedged = wedged || len(cases[i].Obs) > 1
+		}
 	}
 	// cases are independent: run them in parallel bubbles
 	var wg sync.WaitGroup
 	sem := make(chan struct{}, runtime.NumCPU())
-	stats := make([]*vfStats, len(cases))
 	for i := range cases {
-		stats[i] = vfNewStats("cluster")
+		if wedged {
+			break
+		}
 		wg.Add(1)
 		sem <- struct{}{}
 		go func(i int) {
 			defer wg.Done()
 			defer func() { <-sem }()
+			if cases[i].Cfg[0] == 3 {
+				return // real-time cases run on their own, below
+			}
 			synctest.Test(t, func(t *testing.T) { vkRun(t, &cases[i], stats[i]) })
 		}(i)
 	}
